@@ -122,8 +122,16 @@ def single_deviation_schedules(calls, max_full=None):
       continue
     pos, cap_o = perms_for(no, max_full)
     pls, cap_l = perms_for(nl, max_full)
+    ido, idl = tuple(range(no)), tuple(range(nl))
+    # one class permuted at a time first (a cap on the number of schedules per bundle then cuts
+    # the cross products, not the orders of either class), then both at once
+    for po in pos:
+      if po != ido:
+        yield {idx: (po, idl)}, (cap_o or cap_l)
+    for pl in pls:
+      if pl != idl:
+        yield {idx: (ido, pl)}, (cap_o or cap_l)
     for po in pos:
       for pl in pls:
-        if po == tuple(range(no)) and pl == tuple(range(nl)):
-          continue
-        yield {idx: (po, pl)}, (cap_o or cap_l)
+        if po != ido and pl != idl:
+          yield {idx: (po, pl)}, (cap_o or cap_l)
